@@ -6,6 +6,7 @@ import ast
 
 from ..core import AnalysisError, Check, Scope, classify_memo_key, memo_tables, norm, strip_docstring, walk_no_nested
 from ..deps import DepInterp, DepSt
+from ..interp import Sym, SymInterp
 from ..variants import Variant
 
 MOD = "sbml/_import.py"
@@ -57,6 +58,19 @@ class C17(Check):
         for s in strip_docstring(rd.body):
             if isinstance(s, ast.Assign) and isinstance(s.targets[0], ast.Name):
                 defs[s.targets[0].id] = s.value
+
+        # a hash object fed incrementally is the hash of the concatenation of what it was fed
+        for hname, hv in list(defs.items()):
+            if isinstance(hv, ast.Call) and norm(hv.func).startswith("hashlib."):
+                fed = list(hv.args)
+                for c_ in walk_no_nested(rd):
+                    if isinstance(c_, ast.Call) and norm(c_.func) == f"{hname}.update" and c_.args:
+                        fed.append(c_.args[0])
+                if fed:
+                    cat = fed[0]
+                    for x_ in fed[1:]:
+                        cat = ast.BinOp(left=cat, op=ast.Add(), right=x_)
+                    defs[hname] = ast.Call(func=hv.func, args=[cat], keywords=[])
 
         def expand(e, depth=0) -> str:
             t = norm(e)
@@ -116,19 +130,21 @@ class C17(Check):
         else:
             self.violated("U5", MOD, "import_from_path", "model-from-that-module", ifp, "the model factory does not come from the freshly executed module")
         # ---- U2
-        for kind, pat in (("derived", "sym.derived[key]"), ("reactions", "sym.reactions[key]")):
-            ss = [s for s in walk_no_nested(cgf) if isinstance(s, ast.Assign) and norm(s.targets[0]) == pat]
-            def args_ok(c):
-                kw_ = {k.arg: norm(k.value) for k in c.keywords}
-                core = f"free_symbols({kw_.get('expr')})"
-                # any order of the expression's own free symbols is fine: definition and call use the same list object
-                return kw_.get("args") in (core, f"sorted({core})", f"list({core})", f"tuple({core})")
+        def args_ok(c):
+            kw_ = {k.arg: norm(k.value) for k in c.keywords}
+            core = f"free_symbols({kw_.get('expr')})"
+            # any order of the expression's own free symbols is fine: definition and call use the same list object
+            return kw_.get("args") in (core, f"sorted({core})", f"list({core})", f"tuple({core})")
 
-            ok = ss and all(args_ok(c) for s in ss for c in ast.walk(s.value) if isinstance(c, ast.Call) and norm(c.func) == "SymbolicFn")
-            if ok:
-                self.holds("U2", MOD, "_codegen", f"args-of-{kind}", ss[0], "args = free_symbols(expr) of the very expression that becomes the body")
+        for kind in ("derived", "reactions"):
+            # where the component table is filled: a store `sym.<kind>[..] = ..` or the `<kind>=` argument of the SymbolicRepr constructor
+            sites = [s_.value for s_ in walk_no_nested(cgf) if isinstance(s_, ast.Assign) and isinstance(s_.targets[0], ast.Subscript) and norm(s_.targets[0].value) == f"sym.{kind}"]
+            sites += [k_.value for c_ in walk_no_nested(cgf) if isinstance(c_, ast.Call) and norm(c_.func) == "SymbolicRepr" for k_ in c_.keywords if k_.arg == kind]
+            fns = [c for v_ in sites for c in ast.walk(v_) if isinstance(c, ast.Call) and norm(c.func) == "SymbolicFn"]
+            if fns and all(args_ok(c) for c in fns):
+                self.holds("U2", MOD, "_codegen", f"args-of-{kind}", fns[0], "args = free_symbols(expr) of the very expression that becomes the body")
             else:
-                self.violated("U2", MOD, "_codegen", f"args-of-{kind}", ss[0] if ss else cgf, f"argument list of {kind} functions is not the free symbols of their own expression",
+                self.violated("U2", MOD, "_codegen", f"args-of-{kind}", fns[0] if fns else cgf, f"argument list of {kind} functions is not the free symbols of their own expression",
                               witness="the generated function is called with arguments in another order / of another expression")
         gen = self.prog.module(GENMOD).func("generate_mxlpy_code_from_symbolic_repr")
         # def emission uses functions[...] = (expr, args) and the call uses the same .args attribute
@@ -179,16 +195,22 @@ class C17(Check):
             self.violated("U3", MOD, "_codegen", "assignments-applied", cgf, "the document's initial assignments are not applied at all",
                           witness="a species with an <initialAssignment> starts from its plain initialConcentration")
         else:
-            t = " ".join(norm(ia[0]).split())
+            o3 = SymInterp().block(ia[0].body, [SymInterp().assign(ia[0].target, SymInterp().item(ia[0].iter, 0, Sym()), Sym())])
+            K, E = "KEY(0, model.initial_assignments)", "VALUE(0, model.initial_assignments)"
+            want_v = f"SymbolicFn(fn_name={K}, expr={E}, args=free_symbols({E}))"
+            p3 = [st for st in list(o3.normal) + list(o3.continues)
+                  if not any((c.endswith("] is not None") and not p_) or (c.endswith("] is None") and p_) for c, p_ in st.conds)]  # a table lookup is never None
             for kind in ("parameters", "variables"):
-                if f"key in model.{kind}: sym.{kind}[key].value = SymbolicFn(fn_name=key, expr=der, args=free_symbols(der))" in t:
+                sel = [st for st in p3 if (f"{K} in model.{kind}", True) in st.conds and not (kind == "variables" and (f"{K} in model.parameters", True) in st.conds)]
+                ok3 = bool(sel) and all([(e[1], e[2]) for e in st.events if e[0] == "store"] == [(f"sym.{kind}[{K}].value", want_v)] for st in sel)
+                if ok3:
                     self.holds("U3", MOD, "_codegen", f"assignments-applied-to-{kind}", ia[0], f"an initial assignment on a {kind[:-1]} replaces its value by the assignment's function")
                 else:
                     self.violated("U3", MOD, "_codegen", f"assignments-applied-to-{kind}", ia[0], f"initial assignments on {kind} are not applied",
                                   witness=f"a {kind[:-1]} with an <initialAssignment>: the imported model starts from the plain value")
-            chain = [s_ for s_ in ia[0].body if isinstance(s_, ast.If)]
-            has_else = bool(chain) and bool(chain[0].orelse) and not (len(chain[0].orelse) == 1 and isinstance(chain[0].orelse[0], ast.If) and not chain[0].orelse[0].orelse)
-            if not has_else:
+            silently = [st for st in p3 if (f"{K} in model.parameters", False) in st.conds and (f"{K} in model.variables", False) in st.conds
+                        and not any(e[0] in ("store", "raise") for e in st.events)]
+            if silently:
                 self.info("U3", MOD, "_codegen", "assignment-on-other-target", ia[0],
                           "an initial assignment whose target is neither a parameter nor a variable of the transformed model is silently skipped; "
                           "whether pysbml can hand over such a target was not established, so this is not armed")
@@ -197,7 +219,7 @@ class C17(Check):
         return [
             Variant("reintroduce-stem-only", MOD, "read", "out_name = f'{valid_filename(file.stem)}_{digest}'", "out_name = valid_filename(file.stem)", expect="U1|", quick=True),
             Variant("digest-of-path-only", MOD, "read", "hashlib.sha256(str(file.resolve()).encode() + b'\\x00' + file.read_bytes())", "hashlib.sha256(str(file.resolve()).encode())", expect="U1|", quick=True),
-            Variant("imported-models-cached-by-path", MOD, "", "def read(file: Path) -> Model:", "_IMPORTED: dict = {}\n\n\ndef _remember(file, model_fn):\n    _IMPORTED[file.resolve()] = model_fn\n\n\ndef read(file: Path) -> Model:", expect="U6|", quick=True),
+            Variant("imported-models-cached-by-path", MOD, "", "def read(file: Path) -> Model:", "_IMPORTED: dict = {}\n\n\ndef remember_import(file, model_fn):\n    _IMPORTED[file.resolve()] = model_fn\n\n\ndef read(file: Path) -> Model:", expect="U6|", quick=True),
             Variant("species-assignments-dropped", MOD, "_codegen", "        elif key in model.variables:\n            sym.variables[key].value = SymbolicFn(fn_name=key, expr=der, args=free_symbols(der))\n", "", expect="U3|"),
             Variant("named-coefficient-becomes-one", MOD, "_transform_stoichiometry", "return v.name", "return sympy.Float(1.0)", expect="U4|"),
             Variant("digest-of-stem", MOD, "read", "hashlib.sha256(str(file.resolve()).encode() + b'\\x00' + file.read_bytes())", "hashlib.sha256(file.stem.encode())", expect="U1|", quick=True),
